@@ -1411,9 +1411,9 @@ def run(ck: Check):
         # (seed-rotated strides: seeds 0..3 together cover every prefix)
         sd = rng.randrange(10 ** 6)
         chunks.append(('ex', ('att2', 1, SMALL, sd, 2, ck.seed % 2)))
-        chunks.append(('ex', ('det1x2', 1, SMALL, rng.randrange(10 ** 6), 4,
-                              ck.seed % 4)))
-    per = 4 if not thorough else 40
+        chunks.append(('ex', ('det1x2', 1, SMALL, rng.randrange(10 ** 6), 6,
+                              ck.seed % 6)))
+    per = 3 if not thorough else 40
     plan = [('att2', 1), ('att3', 1), ('det1x2', 1), ('det1x2', 2),
             ('det2x1', 2), ('det2x2', 1), ('deep', 1), ('deep', 2)]
     reps = 1 if not thorough else 6
